@@ -75,12 +75,20 @@ VARIANTS = {
 }
 
 _built = set()
+import threading
+_build_lock = threading.RLock()
+_harness_built = {}
 
 
 def build_lib(variant="hooks"):
     """Configure (once) and incrementally build the static libraries of /repo. Returns out dir."""
     d = os.path.join(BUILD, variant)
     out = os.path.join(d, "out")
+    with _build_lock:
+        return _build_lib(variant, d, out)
+
+
+def _build_lib(variant, d, out):
     if variant in _built:
         return out
     btype, cflags, ldflags = VARIANTS[variant]
@@ -118,6 +126,14 @@ WRAP_ALLOC = ["malloc", "calloc", "realloc", "posix_memalign", "free", "svt_crea
 def build_harness(name, srcs, variant="hooks", sync=True, alloc=False, libs=("enc",), extra=(),
                   cxx=False):
     """Compile a harness program against the static libraries of `variant`. Returns binary path."""
+    with _build_lock:
+        key = (name, variant)
+        if key not in _harness_built:
+            _harness_built[key] = _build_harness(name, srcs, variant, sync, alloc, libs, extra, cxx)
+        return _harness_built[key]
+
+
+def _build_harness(name, srcs, variant, sync, alloc, libs, extra, cxx):
     out = build_lib(variant)
     exe = os.path.join(BUILD, "%s.%s" % (name, variant))
     S = os.path.join(REPO, "Source")
@@ -136,7 +152,7 @@ def build_harness(name, srcs, variant="hooks", sync=True, alloc=False, libs=("en
     if alloc:
         srcs.append(os.path.join(HARNESS, "verif_wrap_alloc.c"))
         wraps += WRAP_ALLOC
-    cmd = ["g++" if cxx else "gcc", "-O1", "-g", "-w"] + cflags.split() + inc + srcs + ["-o", exe]
+    cmd = ["g++" if cxx else "gcc", "-O1", "-g", "-w"] + cflags.split() + inc + srcs + ["-o", exe + ".tmp"]
     if wraps:
         cmd.append("-Wl," + ",".join("--wrap=" + w for w in wraps))
     for l in libs:
@@ -145,6 +161,7 @@ def build_harness(name, srcs, variant="hooks", sync=True, alloc=False, libs=("en
     rc, o = sh(cmd, timeout=900)
     if rc != 0:
         raise ModelFailure("harness build failed (%s):\n%s" % (name, o[-4000:]))
+    os.replace(exe + ".tmp", exe)
     return exe
 
 
